@@ -41,12 +41,25 @@ def relevant(violations, prop):
     return [v for v in violations if prop in v["oracle"]]
 
 
+def match_known(prop, violation, findings):
+    """A known finding is matched on its specific oracle + signature, never on the property alone."""
+    for finding in findings or []:
+        if finding.get("property") != prop:
+            continue
+        needle = finding.get("match", {})
+        if not needle.get("oracle") or not needle.get("signature"):
+            continue
+        if needle["oracle"] in violation.get("oracle", "") and needle["signature"] == (violation.get("signature") or ""):
+            return finding
+    return None
+
+
 def violation_class(violation, prop):
     names = [tok for tok in violation["oracle"].split() if tok.startswith(prop)]
     return names[0] if names else violation["oracle"]
 
 
-def minimise(mod, scenario, prop, klass, budget_s=40.0, max_steps=400):
+def minimise(mod, scenario, prop, klass, budget_s=40.0, max_steps=400, known=None):
     """Greedy delta debugging over the engine's shrink candidates."""
     start = time.time()
     current = scenario
@@ -65,7 +78,8 @@ def minimise(mod, scenario, prop, klass, budget_s=40.0, max_steps=400):
                 continue
             if res.get("status") != "ok":
                 continue
-            hits = [v for v in relevant(res["violations"], prop) if violation_class(v, prop) == klass]
+            hits = [v for v in relevant(res["violations"], prop)
+                    if violation_class(v, prop) == klass and not match_known(prop, v, known)]
             if hits:
                 current_violation = hits[0]
                 current = res.get("scenario", cand)
@@ -94,17 +108,21 @@ def run_task(task):
     out = {"status": res["status"], "digest": res.get("digest"), "stats": res.get("stats", {}),
            "nontrivial": res.get("nontrivial", False), "sample": res.get("sample"),
            "run_seed": run_seed, "reject_reasons": res.get("reject_reasons")}
-    viols = relevant(res.get("violations", []), prop)
+    known = task.get("known") or []
+    all_viols = relevant(res.get("violations", []), prop)
+    viols = [v for v in all_viols if not match_known(prop, v, known)]
+    out["known_hits"] = sorted({match_known(prop, v, known)["id"] for v in all_viols if match_known(prop, v, known)})
     out["violations"] = viols[:10]
     out["other_violations"] = [v for v in res.get("violations", []) if prop not in v["oracle"]][:5]
     if viols and mode == "run" and task.get("minimise", True):
         klass = violation_class(viols[0], prop)
-        small, steps, small_violation = minimise(mod, final, prop, klass, budget_s=task.get("min_budget", 40.0))
+        small, steps, small_violation = minimise(mod, final, prop, klass, budget_s=task.get("min_budget", 40.0), known=known)
         out["replay"] = {"property": prop, "class": klass, "violation": small_violation or viols[0],
                          "violation_unminimised": viols[0], "run_seed": run_seed,
                          "verif_seed": task["seed"], "run_index": task["run"],
                          "scenario": small, "scenario_unminimised": final, "minimise_steps": steps}
     elif viols and mode == "replay":
         out["class"] = violation_class(viols[0], prop)
+        out["classes"] = sorted({violation_class(v, prop) for v in viols})
     out["wall"] = time.time() - t0
     return out
